@@ -712,6 +712,10 @@ static int run_case(const uint8_t *data, size_t size, int prop) {
   int closefd[3] = {-1, -1, -1};
   for (int i = 0; i < 2; i++) { End &e = w.e[i]; if (e.fd >= 0 && !e.lib_closes_fd) closefd[i] = e.fd; if (e.live) app_free(e, "teardown"); }
   check_locks("teardown");
+  // A deferred bufferevent callback that is still queued holds a reference; event_base_free() cancels it without dropping
+  // that reference (the bufferevent, and a CLOSE_ON_FREE fd, would leak).  Not the subject of C17-C19 (reported separately):
+  // give the queue one more bounded pass so that pending deferred callbacks and finalizers run.
+  w.passes = 0; event_base_loop(w.base, EVLOOP_NONBLOCK);
   event_base_free(w.base); w.base = nullptr;
   for (int i = 0; i < 2; i++) if (closefd[i] >= 0) close(closefd[i]);
   if (w.listener >= 0) close(w.listener);
